@@ -48,7 +48,7 @@ CHECKS = {
         'batches': [
             {'machine': 'diag', 'profile': 'default',
              'runs': {'quick': 32000, 'thorough': 1200000},
-             'block': {'quick': 1000, 'thorough': 5000},
+             'block': {'quick': 500, 'thorough': 5000},
              'wall': {'quick': 80, 'thorough': 1700}},
         ]},
     'C10': {
